@@ -60,7 +60,30 @@ class RenameLocals(ast.NodeTransformer):
                 n.id = n.id + "_rn"
         return f
 
-VARIANTS = {'unparse': None, 'flipcmp': Flip, 'commute': Commute, 'funcops': FuncOps, 'rename': RenameLocals}
+class PrivAttr(ast.NodeTransformer):
+    """Consistently rename private attributes and methods: obj._x -> obj._x_pv, def _x(self) -> def _x_pv(self),
+    class-level _x = ... -> _x_pv = ... (dunder names and module-level private functions are left alone)."""
+    def _p(self, n):
+        return n.startswith('_') and not n.startswith('__') and n not in ('_', '_replace', '_asdict', '_fields', '_make', '_src')
+    def visit_Attribute(self, n):
+        self.generic_visit(n)
+        if self._p(n.attr) and not (isinstance(n.value, ast.Name) and n.value.id in ('jax', 'np', 'jnp', 'chex', 'matplotlib', 'plt', 'os', 'sys')):
+            n.attr = n.attr + '_pv'
+        return n
+    def visit_ClassDef(self, c):
+        for st in c.body:
+            if isinstance(st, ast.FunctionDef) and self._p(st.name):
+                st.name = st.name + '_pv'
+            if isinstance(st, ast.Assign):
+                for t in st.targets:
+                    if isinstance(t, ast.Name) and self._p(t.id):
+                        t.id = t.id + '_pv'
+            if isinstance(st, ast.AnnAssign) and isinstance(st.target, ast.Name) and self._p(st.target.id):
+                st.target.id = st.target.id + '_pv'
+        self.generic_visit(c)
+        return c
+
+VARIANTS = {'unparse': None, 'flipcmp': Flip, 'commute': Commute, 'funcops': FuncOps, 'rename': RenameLocals, 'privattr': PrivAttr}
 checks = [c['property_id'] for c in json.load(open('/verif/MANIFEST.json'))['checks']]
 want = sys.argv[1:] or list(VARIANTS)
 for name in want:
